@@ -249,6 +249,9 @@ def gen_phase1(chk):
     N = 6 if quick else 13
     idx = 0
     for w in range(1, N + 1):
+        if len(cases) > 60000:          # thorough tier: stream in batches (bounded memory)
+            yield cases
+            cases = []
         for h in range(1, N + 1):
             chips = [(x, y) for x in range(w) for y in range(h)]
             for a in chips:
@@ -261,9 +264,9 @@ def gen_phase1(chk):
                     else:
                         styles = [] if idx % 3 else ["prefer" if idx % 2 else "random"]
                     new = torus_cases(rng, w, h, a, b, idx, styles)
-                    if (w > 7 or h > 7) and idx % 16:
+                    if (w > 7 or h > 7) and idx % 32:
                         # beyond 7 x 7 every pair is still run and decided by the BFS oracle, but only one
-                        # pair in 16 is also evaluated in the Coq model (volume)
+                        # pair in 32 is also evaluated in the Coq model (volume)
                         for c in new:
                             c["nomodel"] = True
                     cases += new
@@ -271,6 +274,8 @@ def gen_phase1(chk):
                         s, d = rep(rng, a), rep(rng, b)
                         cases.append(dict(fn="mesh_len", s=s, d=d))
                         cases.append(dict(fn="mesh_path", s=rep(rng, a), d=rep(rng, b)))
+    yield cases
+    cases = []
     # random larger tori (thin ones included: the spiral adjustment needs |x| >= height)
     nbig = 10 if quick else 60
     per = 200 if quick else 400
@@ -303,7 +308,7 @@ def gen_phase1(chk):
         for start in [(0, 0), (rng.randint(-5, 5), rng.randint(-5, 5))]:
             cases.append(dict(fn="hex", radius=R, start=list(start)))
     # random walks of arbitrary (also non-minimal) vectors
-    for i in range(1500 if quick else 30000):
+    for i in range(1500 if quick else 12000):
         m = rng.choice([1, 2, 3, 6, 12])
         v = [rng.choice([0, 0, rng.randint(-m, m), rng.randint(-m, m), m, -m]) for _ in range(3)]
         width = rng.choice([None, 1, 2, 3, rng.randint(1, 9)])
@@ -323,7 +328,7 @@ def gen_phase1(chk):
         cases.append(dict(fn="torus_path", s=s, d=d, w=w, h=h, ks=[1, 2, 3, 4], t=0, malformed=True))
         cases.append(dict(fn="ldf", v=[rng.randint(0, 2), 1, 0], start=[0, 0], width=w or None, height=h or None,
                           ks=[1, 2, 3], malformed=True))
-    return cases
+    yield cases
 
 
 def gen_phase2(chk, cases, outs):
@@ -341,7 +346,7 @@ def gen_phase2(chk, cases, outs):
                     c2 = dict(c)
                     c2["t"] = t
                     more.append(c2)
-    keep = 1500 if quick else 30000
+    keep = 1500 if quick else 4000      # per batch
     sel = cand if len(cand) <= keep else rng.sample(cand, keep)
     for c, o in sel:
         v = o[1]["v"]
@@ -475,38 +480,11 @@ def run_impl(chk, cases):
     return [o for part in chk.impl_parallel("impl_c11.py", chunks) for o in part]
 
 
-# ------------------------------------------------------------------ the check
-def run(chk, args):
-    chk.trusted += ["random.random() returns k/2**53 with 0 <= k < 2**53 (CPython's generator); IEEE double addition "
-                    "as modelled by fadd53 (round to nearest even) for |magnitude| < 2**53",
-                    "Python tuple comparison (lexicographic), min() keeps the first minimal element, sorted() is "
-                    "stable also with reverse=True"]
-    chk.assumptions += ["coordinates, widths and heights are Python ints; width, height >= 1 (0 raises "
-                        "ZeroDivisionError: modelled as OtherError, outside the property)",
-                        "concentric_hexagons: radius >= 0",
-                        "longest_dimension_first: vector is a 3-tuple; width/height None or >= 1"]
-    chk.regenerate(UNITS)
-    chk.prove()
-    D = Dist()
-    if args.replay:
-        rp = json.load(open(args.replay))
-        cases = [f["replay"]["case"] for f in rp.get("failures", []) if "case" in f.get("replay", {})]
-        cases += [b["replay"]["case"] for b in rp.get("no_longer_checks", []) if "case" in b.get("replay", {})]
-        outs = run_impl(chk, cases)
-    else:
-        cases = gen_phase1(chk)
-        corpus = os.path.join(lib.VERIF, "corpus", "C11.json")
-        if os.path.exists(corpus):
-            cases = json.load(open(corpus)) + cases
-        outs = run_impl(chk, cases)
-        more = gen_phase2(chk, cases, outs)
-        if more:
-            cases += more
-            outs += run_impl(chk, more)
+def process(chk, D, state, cases, outs):
+    """oracle on every implementation output of the batch, then model against implementation"""
     keep = [i for i, o in enumerate(outs) if o[0] != "skipped"]
     cases, outs = [cases[i] for i in keep], [outs[i] for i in keep]
-    # oracle on every implementation output
-    nrep = {}
+    nrep = state["nrep"]
     for c, o in zip(cases, outs):
         fn = c["fn"]
         chk.count("fn:" + fn)
@@ -526,42 +504,88 @@ def run(chk, args):
             if nrep[why[0]] <= 3:
                 chk.fail_input(why[0], why[1], dict(case=c, observed=o))
     for fn in ("torus_path", "ldf", "hex"):
+        if fn in state["sampled"]:
+            continue
         for c, o in zip(cases, outs):
             if c["fn"] == fn and nontrivial(c, o):
                 chk.sample(dict(case=c, implementation=o if fn != "hex" else ["ok", "%d chips" % len(o[1])]))
+                state["sampled"].add(fn)
                 break
-    # model against implementation
+    if not chk.model_ok or state["model_error"]:
+        return
+    try:
+        by_fn = {}
+        for i, c in enumerate(cases):
+            if not c.get("nomodel"):
+                by_fn.setdefault(c["fn"], []).append(i)
+        exprs, groups = [], []
+        for fn, idxs in sorted(by_fn.items()):
+            step = {"ldf": 25, "hex": 2, "links": 1, "torus_path": 60}.get(fn, 120)
+            for j in range(0, len(idxs), step):
+                g = idxs[j:j + step]
+                exprs.append(vlist(coq_expr(cases[i], outs[i]) for i in g))
+                groups.append(g)
+        if not exprs:
+            return
+        vals = chk.coq_eval(HEADER, exprs, shard=max(4, min(40, len(exprs) // 12 + 1)),
+                            name="cases%d" % chk.evaluations)
+        for g, vs in zip(groups, vals):
+            if len(vs) != len(g):
+                raise RuntimeError("model printed %d values for %d cases" % (len(vs), len(g)))
+            for i, v in zip(g, vs):
+                chk.traces_validated += 1
+                m, im = canon_model(cases[i], v), canon_impl(cases[i], outs[i])
+                if m != im:
+                    state["bad"] += 1
+                    if state["bad"] <= 3:
+                        chk.disagree("%s: model %s, implementation %s" % (cases[i]["fn"], str(m)[:300], str(im)[:300]),
+                                     dict(case=cases[i], observed=outs[i]))
+    except RuntimeError as e:
+        state["model_error"] = str(e)
+
+
+# ------------------------------------------------------------------ the check
+def run(chk, args):
+    chk.trusted += ["random.random() returns k/2**53 with 0 <= k < 2**53 (CPython's generator); IEEE double addition "
+                    "as modelled by fadd53 (round to nearest even) for |magnitude| < 2**53",
+                    "Python tuple comparison (lexicographic), min() keeps the first minimal element, sorted() is "
+                    "stable also with reverse=True"]
+    chk.assumptions += ["coordinates, widths and heights are Python ints; width, height >= 1 (0 raises "
+                        "ZeroDivisionError: modelled as OtherError, outside the property)",
+                        "concentric_hexagons: radius >= 0",
+                        "longest_dimension_first: vector is a 3-tuple; width/height None or >= 1"]
+    chk.regenerate(UNITS)
+    chk.prove()
+    D = Dist()
+    state = dict(nrep={}, bad=0, sampled=set(), model_error=None)
+    if args.replay:
+        rp = json.load(open(args.replay))
+        cases = [f["replay"]["case"] for f in rp.get("failures", []) if "case" in f.get("replay", {})]
+        cases += [b["replay"]["case"] for b in rp.get("no_longer_checks", []) if "case" in b.get("replay", {})]
+        process(chk, D, state, cases, run_impl(chk, cases))
+    else:
+        batches = gen_phase1(chk)
+        if chk.tier == "quick":
+            batches = [[c for b in batches for c in b]]
+        first = True
+        for cases in batches:
+            if first:
+                corpus = os.path.join(lib.VERIF, "corpus", "C11.json")
+                if os.path.exists(corpus):
+                    cases = json.load(open(corpus)) + cases
+                first = False
+            outs = run_impl(chk, cases)
+            more = gen_phase2(chk, cases, outs)
+            if more:
+                cases = cases + more
+                outs = outs + run_impl(chk, more)
+            process(chk, D, state, cases, outs)
     if chk.model_ok:
-        try:
-            by_fn = {}
-            for i, c in enumerate(cases):
-                if not c.get("nomodel"):
-                    by_fn.setdefault(c["fn"], []).append(i)
-            exprs, groups = [], []
-            for fn, idxs in sorted(by_fn.items()):
-                step = {"ldf": 25, "hex": 2, "links": 1, "torus_path": 60}.get(fn, 120)
-                for j in range(0, len(idxs), step):
-                    g = idxs[j:j + step]
-                    exprs.append(vlist(coq_expr(cases[i], outs[i]) for i in g))
-                    groups.append(g)
-            vals = chk.coq_eval(HEADER, exprs, shard=max(4, min(40, len(exprs) // 12 + 1)))
-            bad = 0
-            for g, vs in zip(groups, vals):
-                if len(vs) != len(g):
-                    raise RuntimeError("model printed %d values for %d cases" % (len(vs), len(g)))
-                for i, v in zip(g, vs):
-                    chk.traces_validated += 1
-                    m, im = canon_model(cases[i], v), canon_impl(cases[i], outs[i])
-                    if m != im:
-                        bad += 1
-                        if bad <= 3:
-                            chk.disagree("%s: model %s, implementation %s" % (cases[i]["fn"], str(m)[:300], str(im)[:300]),
-                                         dict(case=cases[i], observed=outs[i]))
-            if not bad:
-                chk.oblige("correspondence:geometry (%d cases: lengths, vectors, randint requests, walks, link tables, "
-                           "hexagon lists equal)" % chk.traces_validated, True)
-        except RuntimeError as e:
-            chk.oblige("correspondence:model-evaluates", False, str(e))
+        if state["model_error"]:
+            chk.oblige("correspondence:model-evaluates", False, state["model_error"])
+        elif not state["bad"]:
+            chk.oblige("correspondence:geometry (%d cases: lengths, vectors, randint requests, walks, link tables, "
+                       "hexagon lists equal)" % chk.traces_validated, True)
     chk.coverage["exhaustive"] = False
     chk.coverage["rule"] = (
         "all ordered pairs of chips on every torus w x h with 1 <= w, h <= %d and every finite mesh up to 4 x 4 (6 x 6 in the thorough tier) (three-axis "
